@@ -287,6 +287,52 @@ pub fn record(args: &[String], out: &mut Out) {
         }
         rec.out.count("traces");
     }
+    // systematic length blow-ups: every byte position of every (not too long) corpus item is overwritten by each
+    // huge CompactSize encoding and offered to the decoders that accept the unmodified item; for PSETs the same is
+    // done per key-value pair through the own framing writer, so that the declared lengths stay consistent
+    let blow_max = arg_u64(args, "--blowup-max-len", 1500) as usize;
+    let keep = rec.sample_every;
+    rec.sample_every = keep.max(1) * 97;
+    const HUGE: [&[u8]; 5] = [&[0xfd, 0xff, 0xff], &[0xfe, 0xff, 0xff, 0xff, 0xff], &[0xfe, 0x11, 0x27, 0x00, 0x00],
+                              &[0xff, 0xff, 0xff, 0xff, 0xff, 0xff, 0xff, 0xff, 0x3f], &[0xff, 0xff, 0xff, 0xff, 0xff, 0xff, 0xff, 0xff, 0xff]];
+    for idx in 0..corpus.len() {
+        let item = corpus[idx].clone();
+        if item.len() > blow_max { continue; }
+        macro_rules! blow { ($t:ty, $name:expr) => {
+            if deserialize::<$t>(&item).is_ok() {
+                rec.out.count("blowup_items");
+                for i in 0..item.len() {
+                    for h in HUGE.iter() {
+                        let mut b = item[..i].to_vec();
+                        b.extend_from_slice(h);
+                        b.extend_from_slice(&item[i + 1..]);
+                        let d = || json!({"blowup_of_corpus_item": idx, "at": i, "with": hex(h), "bytes": hexs(&b)});
+                        rec.call("decode", concat!("deserialize::<", $name, ">"), b.len(), &d, || deserialize::<$t>(&b), res);
+                    }
+                }
+            }
+        }; }
+        blow!(Transaction, "Transaction");
+        blow!(Block, "Block");
+        blow!(BlockHeader, "BlockHeader");
+        blow!(Pset, "PartiallySignedTransaction");
+        if let Some(maps) = crate::psetcodec::kv_parse(&item) {
+            for mi in 0..maps.len() {
+                for pi in 0..maps[mi].len() {
+                    for h in HUGE.iter() {
+                        for what in 0..2 {
+                            let mut m2 = maps.clone();
+                            if what == 0 { m2[mi][pi].1 = h.to_vec(); } else { let ty = m2[mi][pi].0[0]; m2[mi][pi].0 = std::iter::once(ty).chain(h.iter().copied()).collect(); }
+                            let b = crate::psetcodec::kv_write(&m2);
+                            let d = || json!({"pset_pair_blowup": [mi, pi, what], "with": hex(h), "bytes": hexs(&b)});
+                            rec.call("decode", "deserialize::<PartiallySignedTransaction>", b.len(), &d, || deserialize::<Pset>(&b), res);
+                        }
+                    }
+                }
+            }
+        }
+    }
+    rec.sample_every = keep;
     for _ in 0..random_items {
         let n = (r.next_u32() % 200) as usize;
         let b = pools::rbytes(&mut r, n);
